@@ -25,6 +25,8 @@ type propState struct {
 	made    bool
 	sent    bool
 	checked bool
+	// height at which the node accepted somebody else's proposal as a backup
+	sawProposalAt uint32
 }
 
 func NewPropose() *Propose { return &Propose{st: map[int]*propState{}} }
@@ -53,6 +55,10 @@ func (m *Propose) Event(c *vnet.Cluster, e *vnet.Event) {
 		}
 	case vnet.KEpoch:
 		s.made = false
+	case vnet.KVerifyBlock, vnet.KVerifyPreBlock:
+		if !d.IsPrimary() {
+			s.sawProposalAt = d.BlockIndex
+		}
 	case vnet.KGetVerified:
 		s.verified, s.haveVer = e.Hs, true
 	case vnet.KNewPrepReq:
@@ -87,6 +93,9 @@ func (m *Propose) Event(c *vnet.Cluster, e *vnet.Event) {
 		s.ts, s.hashes, s.h, s.v, s.made, s.sent, s.checked = ts, e.Hs, d.BlockIndex, d.ViewNumber, true, false, false
 		if d.ViewNumber > 0 {
 			m.inc("proposals-in-higher-view")
+			if s.sawProposalAt == d.BlockIndex {
+				m.inc("proposals-after-backup-role-in-same-height")
+			}
 		}
 	case vnet.KSend:
 		if e.P.T != dbft.PrepareRequestType {
@@ -106,6 +115,21 @@ func (m *Propose) Event(c *vnet.Cluster, e *vnet.Event) {
 		}
 		s.sent = true
 	case vnet.KAPIRet:
+		// whatever (pre)header the primary holds for the view it proposed in is built from the proposal
+		if s.made && s.sent && d.BlockIndex == s.h && d.ViewNumber == s.v && d.IsPrimary() {
+			if ph, ok := d.PreHeader().(*vnet.PreBlock); ok && ph != nil {
+				if ph.Ts != s.ts || ph.Nonce != s.nonce || !eqHashes(ph.TxH, s.hashes) || ph.Idx != s.h {
+					m.fail(c, "primary-preblock-differs-from-proposal", "n%d holds a pre-block header (ts=%d nonce=%d tx=%d) that differs from its proposal for (%d,%d) (ts=%d nonce=%d tx=%d)", n.ID, ph.Ts, ph.Nonce, len(ph.TxH), s.h, s.v, s.ts, s.nonce, len(s.hashes))
+				}
+				m.inc("primary-preheaders-checked")
+			}
+			if hd, ok := d.Header().(*vnet.Block); ok && hd != nil {
+				if hd.Ts != s.ts || hd.Nonce != s.nonce || !eqHashes(hd.TxH, s.hashes) || hd.Idx != s.h {
+					m.fail(c, "primary-block-differs-from-proposal", "n%d holds a block header (ts=%d nonce=%d tx=%d) that differs from its proposal for (%d,%d)", n.ID, hd.Ts, hd.Nonce, len(hd.TxH), s.h, s.v)
+				}
+				m.inc("primary-headers-checked")
+			}
+		}
 		if s.made && s.sent && !s.checked && d.BlockIndex == s.h && d.ViewNumber == s.v {
 			s.checked = true
 			if d.Timestamp != s.ts || d.Nonce != s.nonce || !eqHashes(d.TransactionHashes, s.hashes) {
